@@ -19,6 +19,8 @@ func Main(cmd string, args []string) int {
 		return drive(args)
 	case "replay":
 		return replay(args)
+	case "schedrun":
+		return schedChild(args)
 	}
 	fmt.Fprintln(os.Stderr, "unknown subcommand", cmd)
 	return 2
